@@ -271,8 +271,55 @@ func (in *callInliner) errNilness(fd *ast.FuncDecl, rs *ast.ReturnStmt, e ast.Ex
 	return 0
 }
 
-func (in *callInliner) bindArgs(fd *ast.FuncDecl, call *ast.CallExpr) []ast.Stmt {
+func (in *callInliner) bindArgs(fd *ast.FuncDecl, call *ast.CallExpr, subst map[types.Object]ast.Expr) []ast.Stmt {
 	var pre []ast.Stmt
+	// a parameter that the helper assigns to (or takes the address of) is a variable of its own and cannot be replaced by
+	// the argument expression
+	written := map[types.Object]bool{}
+	ast.Inspect(fd.Body, func(n ast.Node) bool {
+		switch x := n.(type) {
+		case *ast.AssignStmt:
+			for _, l := range x.Lhs {
+				if id, ok := ast.Unparen(l).(*ast.Ident); ok {
+					written[in.info.Uses[id]] = true
+				}
+			}
+		case *ast.IncDecStmt:
+			if id, ok := ast.Unparen(x.X).(*ast.Ident); ok {
+				written[in.info.Uses[id]] = true
+			}
+		case *ast.UnaryExpr:
+			if x.Op == token.AND {
+				if id, ok := ast.Unparen(x.X).(*ast.Ident); ok {
+					written[in.info.Uses[id]] = true
+				}
+			}
+		case *ast.RangeStmt:
+			for _, e := range []ast.Expr{x.Key, x.Value} {
+				if id, ok := e.(*ast.Ident); ok && x.Tok == token.ASSIGN {
+					written[in.info.Uses[id]] = true
+				}
+			}
+		}
+		return true
+	})
+	simple := func(e ast.Expr) bool {
+		ok := true
+		ast.Inspect(e, func(n ast.Node) bool {
+			switch x := n.(type) {
+			case *ast.Ident, *ast.SelectorExpr, *ast.BasicLit, *ast.ParenExpr, *ast.StarExpr:
+			case *ast.UnaryExpr:
+				if x.Op != token.AND && x.Op != token.SUB && x.Op != token.NOT {
+					ok = false
+				}
+			case nil:
+			default:
+				ok = false
+			}
+			return ok
+		})
+		return ok
+	}
 	var params []*ast.Ident
 	if fd.Type.Params != nil {
 		for _, pl := range fd.Type.Params.List {
@@ -285,7 +332,11 @@ func (in *callInliner) bindArgs(fd *ast.FuncDecl, call *ast.CallExpr) []ast.Stmt
 	if fd.Recv != nil && len(fd.Recv.List) == 1 && len(fd.Recv.List[0].Names) == 1 {
 		if sel, ok := ast.Unparen(call.Fun).(*ast.SelectorExpr); ok {
 			if id, ok := ast.Unparen(sel.X).(*ast.Ident); ok {
-				in.aliases.bind(in.info.Defs[fd.Recv.List[0].Names[0]], in.info.Uses[id])
+				recvObj := in.info.Defs[fd.Recv.List[0].Names[0]]
+				in.aliases.bind(recvObj, in.info.Uses[id])
+				if subst != nil && recvObj != nil && !written[recvObj] {
+					subst[recvObj] = id
+				}
 			}
 		}
 	}
@@ -293,9 +344,20 @@ func (in *callInliner) bindArgs(fd *ast.FuncDecl, call *ast.CallExpr) []ast.Stmt
 		if i >= len(params) || params[i] == nil {
 			continue
 		}
+		pobj := in.info.Defs[params[i]]
 		if id, ok := ast.Unparen(a).(*ast.Ident); ok {
-			in.aliases.bind(in.info.Defs[params[i]], in.info.Uses[id])
+			in.aliases.bind(pobj, in.info.Uses[id])
+			if subst != nil && pobj != nil && !written[pobj] {
+				subst[pobj] = id
+			}
 			continue
+		}
+		if subst != nil && pobj != nil && !written[pobj] && simple(a) {
+			// a side-effect-free argument (a field, a literal, a method expression) stands in for the parameter
+			if _, isFuncLit := ast.Unparen(a).(*ast.FuncLit); !isFuncLit {
+				subst[pobj] = a
+				continue
+			}
 		}
 		// keep calls made while evaluating the argument in the flow graph
 		hasCall := false
@@ -390,7 +452,12 @@ func (in *callInliner) expand(st ast.Stmt, depth int, active map[*ast.FuncDecl]b
 		in.budget = saved
 		return nil
 	}
-	pre := in.bindArgs(fd, call)
+	subst := map[types.Object]ast.Expr{}
+	pre := in.bindArgs(fd, call, subst)
+	// every expansion works on its own copy of the helper's statements, with the parameters replaced by this call's
+	// arguments (the copy keeps the type information of the original nodes)
+	cloner := newASTCloner(in.info, subst)
+	list = cloner.Stmts(list)
 	// what follows a return of the helper
 	var errVar types.Object
 	condWhenNonNil := 0 // +1: cond is `x != nil`, -1: `x == nil`
@@ -454,7 +521,9 @@ func (in *callInliner) expand(st ast.Stmt, depth int, active map[*ast.FuncDecl]b
 			out := assignOrNothing(lhs, tok, rs, ifs.Pos())
 			nilness := 0
 			if errVar != nil && rs != nil && len(rs.Results) == nres {
-				nilness = in.errNilness(fd, rs, rs.Results[nres-1])
+				if orig, ok := cloner.Origin(rs).(*ast.ReturnStmt); ok && len(orig.Results) == nres {
+					nilness = in.errNilness(fd, orig, orig.Results[nres-1])
+				}
 			}
 			switch nilness * condWhenNonNil {
 			case 1: // the condition holds
